@@ -40,6 +40,9 @@ func init() {
 			StructLits: map[string]StructLit{"JWTProfileVerifier{}": {Lean: "AsrtVerifierGo", Keep: []string{"Verifier", "Storage", "keySet", "CheckSubject"}}},
 			Params:     []string{"(storage : AsrtStorage)", "(keySet : KeySet)", "(issuer : String)", "(maxAgeIAT offset : Int)", "(opts : List AsrtVerifierOption)"},
 			Ret:        RetVal, RetType: "AsrtVerifierGo", Rename: rn(map[string]string{"SubjectIsIssuer": "(Gen.SubjectIsIssuer now)", "opt()": "opt"})},
+		// (deep 3) the one option the constructor knows: a custom subject check (a closure that writes the verifier's CheckSubject field)
+		{File: "pkg/op/verifier_jwt_profile.go", Name: "SubjectCheck", Lean: "SubjectCheck", PlainUpdate: true, Closures: true, ClosureState: "verifier",
+			Params: []string{"(check : Claims → Go.R Unit)"}, Ret: RetVal, RetType: "AsrtVerifierOption"},
 		{File: "pkg/op/verifier_jwt_profile.go", Name: "NewJWTProfileVerifier", Lean: "NewJWTProfileVerifier", PlainUpdate: true, LoopStyle: "forFirst",
 			Params: []string{"(storage : AsrtStorage)", "(issuer : String)", "(maxAgeIAT offset : Int)", "(opts : List AsrtVerifierOption)"},
 			Ret:    RetVal, RetType: "AsrtVerifierGo", Rename: rn(nil)},
@@ -99,6 +102,102 @@ func init() {
 			Rename: map[string]string{"ClientJWTAuth()": "ClientJWTAuth now reqIssuer",
 				"checkPrivateKeyJWTClient()": "checkPrivateKeyJWTClient now", "checkAuthMethodPost()": "checkAuthMethodPost now",
 				"s.provider.Storage().AuthorizeClientIDSecret()": "(((s).provider).Storage).base.AuthorizeClientIDSecret"}}),
+	}
+	// (deep 3) the verifier as an OBJECT that outlives the call: VerifyJWTAssertion once more, this time returning what it leaves in
+	// `*v` next to its answer (`Go.R Claims × JWTProfileVerifier`, on every path).  A write through the receiver (`v.keySet = …`)
+	// shows in the second component: `verifyJWTAssertionSt_frame` (Proofs/C14Reuse.lean) states that there is none, hence that a
+	// verifier used for a whole sequence of assertions answers each of them like a fresh one.
+	extraGroups = append(extraGroups, Group{
+		Out:     "AssertionReuse.lean",
+		NS:      "GenC14",
+		Imports: []string{"OidcModel.Generated.RPVerifier"},
+		Opens:   []string{"Go", "Hand", "Gen"},
+		Funcs: []FuncSpec{
+			{File: "pkg/op/verifier_jwt_profile.go", Name: "VerifyJWTAssertion", Lean: "VerifyJWTAssertionSt", LetIf: true,
+				Params: []string{"(assertion : Token)", "(v : JWTProfileVerifier)"}, Ret: RetValErr, RetType: "Claims", AlsoRet: "v", AlsoRetType: "JWTProfileVerifier",
+				Rename: map[string]string{"v.CheckSubject()": "Hand.applySubjectCheck (SubjectIsIssuer now) (v).CheckSubject",
+					"jwtProfileKeySet{}": "Hand.jwtProfileKeySet"}},
+		},
+	})
+	// (deep 3) the library's own CLIENT-side helpers that make assertions, so that "assertions produced by the library's own client
+	// helpers are accepted by the provider" is a theorem about helper ∘ verifier (Proofs/C14Deep.lean).  Model types:
+	// lean/OidcModel/Model/AssertionHelpers.lean (prefix `Hlp`): keys, PEM parsing, JSON marshalling and go-jose's signer are symbolic.
+	{
+		const pC = "(cd : HlpCodec)"
+		hl := func(f FuncSpec) FuncSpec {
+			f.PlainUpdate, f.TupleAssign, f.ErrNilFirst, f.ErrElse = true, true, true, true
+			if f.LoopStyle == "" {
+				f.LoopStyle = "forFirst"
+			}
+			return f
+		}
+		extraGroups = append(extraGroups, Group{
+			Out:     "AssertionHelpers.lean",
+			NS:      "GenC14",
+			Imports: []string{"OidcModel.Model.AssertionHelpers"},
+			Opens:   []string{"Go", "Hand", "Const"},
+			Funcs: []FuncSpec{
+				// which algorithm a key gets: RSA -> RS256, Ed25519 -> EdDSA, ECDSA (any curve) -> ES256
+				hl(FuncSpec{File: "pkg/crypto/key.go", Name: "BytesToPrivateKey", Lean: "BytesToPrivateKey", Params: []string{"(b : HlpKeyBytes)"},
+					Ret: RetValErr, RetType: "(HlpPrivateKey × String)", NilValue: []string{"nil", `""`},
+					TypeCases: map[string]string{"*rsa.PrivateKey": "HlpAnyKey.rsa", "ed25519.PrivateKey": "HlpAnyKey.ed25519", "*ecdsa.PrivateKey": "HlpAnyKey.ecdsa"},
+					Rename: map[string]string{"pem.Decode()": "Hand.hlpPemDecode", "block.Bytes": "(Go.getOpt block).Bytes", "x509.ParsePKCS1PrivateKey()": "Hand.hlpParsePKCS1 b", "x509.ParsePKCS8PrivateKey()": "Hand.hlpParsePKCS8 b",
+						"jose.RS256": "Const.RS256", "jose.EdDSA": "Const.EdDSA", "jose.ES256": "Const.ES256"}}),
+				hl(FuncSpec{File: "pkg/client/client.go", Name: "NewSignerFromPrivateKeyByte", Lean: "NewSignerFromPrivateKeyByte",
+					Params: []string{"(key : HlpKeyBytes)", "(keyID : String)"}, Ret: RetValErr, RetType: "HlpSigner",
+					StructLits: map[string]StructLit{"jose.SigningKey{}": {Lean: "HlpSigningKey", Keep: []string{"Algorithm", "Key"}}, "jose.JSONWebKey{}": {Lean: "HlpJWK", Keep: []string{"Key", "KeyID"}},
+						"jose.SignerOptions{}": {Lean: "HlpSignerOptions", Keep: []string{"EmbedJWK", "ExtraHeaders"}}},
+					Rename: map[string]string{"jose.NewSigner()": "Hand.hlpNewSigner"}}),
+				hl(FuncSpec{File: "pkg/crypto/sign.go", Name: "SignPayload", Lean: "SignPayload", Params: []string{"(payload : Payload)", "(signer : HlpSigner)"},
+					Ret: RetValErr, RetType: "Token", NilValue: []string{`""`},
+					Rename: map[string]string{".Sign()": "Hand.hlpSign", ".CompactSerialize()": "Hand.hlpCompactSerialize"}}),
+				hl(FuncSpec{File: "pkg/crypto/sign.go", Name: "Sign", Lean: "SignRequest", Params: []string{pC, "(object : HlpTokenRequest)", "(signer : HlpSigner)"},
+					Ret: RetValErr, RetType: "Token", NilValue: []string{`""`},
+					Rename: map[string]string{"json.Marshal()": "Hand.hlpMarshalRequest cd"}}),
+				hl(FuncSpec{File: "pkg/client/client.go", Name: "SignedJWTProfileAssertion", Lean: "SignedJWTProfileAssertion",
+					Params: []string{pC, "(clientID : String)", "(audience : List String)", "(expiration : Int)", "(signer : HlpSigner)"}, Ret: RetValErr, RetType: "Token",
+					StructLits: map[string]StructLit{"oidc.JWTTokenRequest{}": {Lean: "HlpTokenRequest", Keep: []string{"Issuer", "Subject", "Audience", "ExpiresAt", "IssuedAt"}}},
+					Rename:     map[string]string{"crypto.Sign()": "SignRequest now cd"}}),
+				// the second family: claims object + GenerateJWTProfileToken (key bytes travel inside the claims object)
+				{File: "pkg/oidc/token.go", Name: "NewJWTProfileAssertion", Lean: "NewJWTProfileAssertion", PlainUpdate: true,
+					LoopStyle: "state", OutCallState: true, LocalOut: map[string]OutParam{"opt": {0, true}},
+					StructLits: map[string]StructLit{"JWTProfileAssertionClaims{}": {Lean: "HlpAssertionClaims",
+						Keep: []string{"PrivateKey", "PrivateKeyID", "Issuer", "Subject", "IssuedAt", "Expiration", "Audience"}}},
+					Params: []string{"(userID keyID : String)", "(audience : List String)", "(key : HlpKeyBytes)", "(opts : List HlpAssertionOption)"},
+					Ret:    RetVal, RetType: "HlpAssertionClaims", Rename: map[string]string{"opt()": "opt"}},
+				hl(FuncSpec{File: "pkg/oidc/token.go", Name: "GenerateJWTProfileToken", Lean: "GenerateJWTProfileToken",
+					Params: []string{pC, "(assertion : HlpAssertionClaims)"}, Ret: RetValErr, RetType: "Token", NilValue: []string{`""`},
+					StructLits: map[string]StructLit{"jose.SigningKey{}": {Lean: "HlpSigningKey", Keep: []string{"Algorithm", "Key"}}, "jose.JSONWebKey{}": {Lean: "HlpJWK", Keep: []string{"Key", "KeyID"}},
+						"jose.SignerOptions{}": {Lean: "HlpSignerOptions", Keep: []string{"EmbedJWK", "ExtraHeaders"}}},
+					Rename: map[string]string{"jose.NewSigner()": "Hand.hlpNewSigner", "json.Marshal()": "Hand.hlpMarshalAssertion cd",
+						".Sign()": "Hand.hlpSign", ".CompactSerialize()": "Hand.hlpCompactSerialize"}}),
+				// the jwt-bearer token source: which assertion it sends to the token endpoint
+				hl(FuncSpec{File: "pkg/oidc/jwt_profile.go", Name: "NewJWTProfileGrantRequest", Lean: "NewJWTProfileGrantRequest",
+					Params: []string{"(assertion : Token)", "(scopes : List String)"}, Ret: RetVal, RetType: "HlpGrantRequest",
+					StructLits: map[string]StructLit{"JWTProfileGrantRequest{}": {Lean: "HlpGrantRequest", Keep: []string{"GrantType", "Assertion", "Scope"}}}}),
+				{File: "pkg/client/profile/jwt_profile.go", Name: "NewJWTProfileTokenSource", Lean: "NewJWTProfileTokenSource", PlainUpdate: true,
+					LoopStyle: "state", OutCallState: true, LocalOut: map[string]OutParam{"opt": {0, true}},
+					StructLits: map[string]StructLit{"jwtProfileTokenSource{}": {Lean: "HlpTokenSource", Keep: []string{"clientID", "audience", "signer", "scopes"}}},
+					Params: []string{"(discovered : Go.R String)", "(issuer clientID keyID : String)", "(key : HlpKeyBytes)", "(scopes : List String)", "(options : List HlpSourceOption)"},
+					Ret:    RetValErr, RetType: "HlpTokenSource",
+					Rename: map[string]string{"client.NewSignerFromPrivateKeyByte()": "NewSignerFromPrivateKeyByte now", "opt()": "opt",
+						"client.Discover()": "Hand.hlpDiscover discovered", "config.TokenEndpoint": "config"},
+					DropArgs: []string{"source.httpClient"}},
+				{File: "pkg/client/profile/jwt_profile.go", Name: "WithStaticTokenEndpoint", Lean: "WithStaticTokenEndpoint", PlainUpdate: true, Closures: true, ClosureState: "source",
+					Params: []string{"(issuer tokenEndpoint : String)"}, Ret: RetVal, RetType: "HlpSourceOption"},
+				hl(FuncSpec{File: "pkg/client/profile/jwt_profile.go", Name: "jwtProfileTokenSource.TokenCtx", Lean: "TokenSourceTokenCtx",
+					Params: []string{pC, "(j : HlpTokenSource)"}, Ret: RetValErr, RetType: "HlpGrantRequest",
+					Rename: map[string]string{"client.SignedJWTProfileAssertion()": "SignedJWTProfileAssertion now cd", "client.JWTProfileExchange()": "Hand.hlpExchange",
+						"oidc.NewJWTProfileGrantRequest()": "NewJWTProfileGrantRequest now"}}),
+				// how an assertion is put on the wire as CLIENT AUTHENTICATION: the two form parameters the provider's decoders read
+				{File: "pkg/client/jwt_profile.go", Name: "ClientAssertionFormAuthorization", Lean: "ClientAssertionFormAuthorization", PlainUpdate: true, Closures: true,
+					Params: []string{"(assertion : String)"}, Ret: RetVal, RetType: "HlpValues → HlpValues",
+					Mutators: []string{"values.Set"}, ClosureState: "values", Rename: map[string]string{"oidc.ClientAssertionTypeJWTAssertion": "Const.ClientAssertionTypeJWTAssertion"}},
+				{File: "pkg/client/jwt_profile.go", Name: "ClientAssertionCodeOptions", Lean: "ClientAssertionCodeOptions", PlainUpdate: true,
+					Params: []string{"(assertion : String)"}, Ret: RetVal, RetType: "List (String × String)",
+					Rename: map[string]string{"oauth2.SetAuthURLParam()": "Hand.hlpSetAuthURLParam", "oidc.ClientAssertionTypeJWTAssertion": "Const.ClientAssertionTypeJWTAssertion"}},
+			},
+		})
 	}
 	extraGroups = append(extraGroups, Group{
 		Out:     "AssertionEndpoints.lean",
